@@ -712,7 +712,7 @@ class World(WorldBase):
         rows = o["frames_w" if weights else "frames_n"][d["cursor"]]
         eff = 200 if nmax is None else nmax
         want = expected_read(rows, n_t, eff, weights)
-        if not isinstance(res, np.ndarray) or res.dtype != want.dtype or res.shape != want.shape:
+        if not isinstance(res, np.ndarray) or res.dtype.kind != want.dtype.kind or res.shape != want.shape:
             raise Violation(f"C20/reader-shape:{tag}", f"got {getattr(res, 'dtype', None)} {getattr(res, 'shape', None)}, expected {want.dtype} {want.shape} (Nmax={nmax})")
         if not np.array_equal(res, want):
             bad = np.argwhere(res != want)[0]
@@ -749,7 +749,7 @@ class World(WorldBase):
     def invariants(self):
         super().invariants()
         for got, want, what, tag in self.delivered:
-            if got.dtype != want.dtype or got.shape != want.shape or not np.array_equal(got, want):
+            if got.dtype.kind != want.dtype.kind or got.shape != want.shape or not np.array_equal(got, want):
                 raise Violation(f"C20/delivered-frame-changed:{tag}",
                                 f"the array returned earlier for {what} no longer holds that frame (a later read changed it)")
 
